@@ -54,10 +54,10 @@ CHECKS["C12"] = dict(
          "gap filled by candles exactly one timeframe apart built from their predecessor (inductive relation Filled), hence contiguous, "
          "real buckets preserved in order, inserted candles flat at the predecessor's raw close with volume 0 and no readings; on every "
          "stream with non-decreasing timestamps collapse-then-fill returns (the Python loop's only non-termination case, a list that is "
-         "not strictly increasing on the grid, is unreachable). Correspondence and falsifier as for C03 with fill on, incl. schedule "
+         "not strictly increasing on the grid, is unreachable); and schedule independence: mgr_append cfg (tasks cfg xs) ys = tasks cfg "
+         "(xs ++ ys) for the manager with timeframe and fill, any sorted raw stream and any split. Correspondence and falsifier as for C03 with fill on, incl. schedule "
          "independence against a batch twin (with and without Heikin-Ashi).",
-    note="Schedule independence of collapse+fill under appends is decided by correspondence + falsifier, not yet by a theorem "
-         "(C03_recollapse covers the collapse half). Axioms: none.",
+    note="Fill combined with Heikin-Ashi or a lifespan under appends is decided by correspondence + falsifier. Axioms: none.",
     technique="Coq proof (inductive fill relation) + vm_compute correspondence + falsifier",
     design="5/C12")
 CHECKS["C15"] = dict(
